@@ -8,7 +8,8 @@
 (* One action per critical section of the code: managed_provide_cache      *)
 (* enter / exit / error exit, register_provide_reference (with its         *)
 (* `if not provide_cache: return` shortcut), inject,                       *)
-(* unregister_provide_reference.  The order of the calls is the one the     *)
+(* unregister_provide_reference (each a critical section under the module  *)
+(* lock), and the error-path cleanup of component.py.  The order of the calls is the one the     *)
 (* deferred renderer produces: a consumer's get_context_data (register +   *)
 (* inject) runs when its tag is reached; outside any component ("page") it *)
 (* then renders to completion at once (with its children), inside a host    *)
@@ -104,7 +105,11 @@ ConsumerTag(sh, fails) ==
      THEN \* get_context_data raises: the exception leaves the provider body
           /\ failed' = TRUE /\ pc' = "raised"
           /\ injects' = Append(injects, inj)
-          /\ Becomes(Cleanup(UnregisterAll(s1, s1.allIds \ before)))
+          /\ LET s2 == Unregister(s1, Cid(i))                            \* _cleanup_failed_render of the failing component
+                 s3 == Cleanup(IF SelfRef THEN Unregister(s2, P) ELSE s2)  \* `finally` of managed_provide_cache
+                 \* the host (render root) releases the components that will never be rendered
+                 s4 == UnregisterAll(s3, {Cid(pending[j]) : j \in 1..Len(pending)}) IN
+             Becomes(s4)
           /\ UNCHANGED <<next, shape, pending, before>>
      ELSE IF Level = "page"
      THEN LET c == Complete(s1, i, sh) IN
